@@ -1,8 +1,9 @@
 \* export: sequences of two calls (representative first call x every second call)
 CONSTANTS
   Statuses = {200, 404, 429}
-  Retryable = {408}
+  RetryStatuses = {408}
   RetryBodies = {"valid"}
+  UndecodableBodies = {}
   AfterRetryStatuses = {200}
   MaxAnswers = 2
   MaxCalls = 2
